@@ -21,6 +21,9 @@ type EndsParams struct {
 
 type FiniteParams struct {
 	Empty bool `json:"empty"` // a fourth assigned vBucket that has no events at all (high seqno 0)
+	// Latest: autoReset=latest and no checkpoint at all: every vBucket starts AT its high seqno, which is also
+	// its end - nothing is delivered, every stream ends, the run terminates
+	Latest bool `json:"latest"`
 }
 
 type ReopenFailParams struct {
@@ -92,6 +95,8 @@ func init() {
 				{Scenario: "c12_ends", Params: mustJSON(EndsParams{Depth: d}), Bound: 0, Shards: 8},
 				{Scenario: "c12_finite", Params: mustJSON(FiniteParams{}), Bound: b, Shards: 8},
 				{Scenario: "c12_finite", Params: mustJSON(FiniteParams{Empty: true}), Bound: b - 1, Shards: 8, Note: "one assigned vBucket has no events at all"},
+				{Scenario: "c12_finite", Params: mustJSON(FiniteParams{Latest: true}), Bound: b - 1, Shards: 4, Note: "finite mode with autoReset=latest and no checkpoint: start = end = high seqno, the run terminates at once"},
+				{Scenario: "c12_finite", Params: mustJSON(FiniteParams{Latest: true, Empty: true}), Bound: b - 1, Shards: 4},
 				{Scenario: "c12_conc", Params: mustJSON(struct{}{}), Bound: b - 1, Shards: 8, Note: "transient end (node 0) and final end (node 1) concurrently with each other and with events on a third vBucket"},
 			}
 			out = append(out, Instance{Scenario: "c12_afterrebalance", Params: mustJSON(AfterRebParams{CloseFault: true}), Bound: 0, Shards: 8, Note: "a close-stream request of the rebalance fails (lost reply / dead connection): the sessions after it obey the stop rule"})
@@ -257,6 +262,9 @@ func finiteMain(p FiniteParams) {
 		nvb = 4 // vb3 has no events at all
 	}
 	o := EnvOpts{Vbs: int(nvb), CheckpointType: "manual", Mode: config.DcpModeFinite, WrapMeta: true}
+	if p.Latest {
+		o.AutoReset = "latest"
+	}
 	c := NewCluster(&o)
 	for s := uint64(1); s <= 3; s++ {
 		c.Append(0, marker(s, s), symbolPacket("M", s))
@@ -268,9 +276,14 @@ func finiteMain(p FiniteParams) {
 	for s := uint64(1); s <= 5; s++ {
 		c.Append(2, symbolPacket("M", s))
 	}
-	seedCheckpoint(c, srcBucket, "g", 0, 1000, 3, 3, 3)
-	seedCheckpoint(c, srcBucket, "g", 1, 1001, 2, 2, 2)
+	if !p.Latest {
+		seedCheckpoint(c, srcBucket, "g", 0, 1000, 3, 3, 3)
+		seedCheckpoint(c, srcBucket, "g", 1, 1001, 2, 2, 2)
+	}
 	withTransient := vrt.Choose(2, true, "transient-end-on-vb2") == 1
+	if p.Latest {
+		withTransient = false
+	}
 	e := NewEnv(c, o)
 	e.Cons.AutoAck = true
 	if withTransient {
@@ -288,6 +301,9 @@ func finiteMain(p FiniteParams) {
 	vrt.Sleep(3e9)
 	vrt.Quiesce()
 	want := map[uint16][]uint64{0: nil, 1: {3, 4}, 2: {1, 2, 3, 4, 5}, 3: nil}
+	if p.Latest {
+		want = map[uint16][]uint64{}
+	}
 	for vb := uint16(0); vb < nvb; vb++ {
 		var got []uint64
 		for _, d := range e.Cons.Events {
@@ -317,6 +333,9 @@ func finiteMain(p FiniteParams) {
 		hi := map[uint16]uint64{0: 3, 1: 4, 2: 5, 3: 0}[r.Vb]
 		if r.Args[3] != hi {
 			vrt.Failf("finite mode: vb%d requested with end %d, want the sampled high seqno %d", r.Vb, r.Args[3], hi)
+		}
+		if p.Latest && r.Args[2] != hi {
+			vrt.Failf("finite mode, autoReset=latest, no checkpoint: vb%d requested from %d, want its high seqno %d", r.Vb, r.Args[2], hi)
 		}
 	}
 	if got := activeCount(e); got != 0 {
